@@ -313,3 +313,16 @@ Section NS.
     Definition relative_to_outdir (p : path) : path := skipn (length outdir) p.
   End Orders.
 End NS.
+
+(* ---- the files a generation run writes --------------------------------------------------------------------------------
+   DSDLCodeGenerator.generate_all (jinja/__init__.py): provider = namespace.get_all_types if generate_namespace_types else
+   namespace.get_all_datatypes; one file is written per yielded (type, output path), at that path.  `c11_targets` is that
+   list of paths in generation order, for the current code (eqkey = same, children visited by sort_keys). *)
+Definition item_path (i : item) : path := match i with INs _ p => p | ITy _ p => p end.
+
+Definition c11_targets (strop : str -> str) (es : bool) (ext stem : str) (outdir : path)
+           (generate_namespace_types : bool) (perm : list key -> list key) (types : list ty) : list path :=
+  let b := build strop same es ext outdir perm types in
+  if generate_namespace_types
+  then map item_path (get_all_types strop ext stem outdir sort_keys (fst b) (snd b))
+  else map snd (get_all_datatypes sort_keys (fst b) (snd b)).
